@@ -8,7 +8,7 @@ import casadi as ca
 from .. import oracles as O
 from ..caseval import Ev
 from ..groups import SO3Spec, SE3Spec, SE23Spec, SO3S, angle_mix
-from .lie_common import lib_call, algebra_corpus, algebra_switch_points
+from .lie_common import lib_call, algebra_corpus, algebra_switch_points, inplace_history
 from .c04 import oracle_ad
 
 PI = np.pi
@@ -61,6 +61,10 @@ def run(ctx):
     if ctx.shard == ctx.nshards - 1:
         group_jacobians(ctx, 20000 if ctx.quick else 1000000)
         mp_cross_check(ctx, 6 if ctx.quick else 60)
+    if ctx.shard == 0:
+        from ..groups import base_specs
+        inplace_history(ctx, [s_ for s_ in base_specs() if s_.name in ("SO3Quat", "SO3Mrp", "SO3Dcm", "SE3Quat", "SE3Mrp", "SE23Quat", "SE23Mrp")],
+                        4 if ctx.quick else 40, ops=("jacobians", "group_jacobians"))
 
 
 def algebra_jacobians(ctx, spec, N, chunk):
